@@ -767,6 +767,7 @@ func (ex *Exec) checkInvariants(f *frame, st *State, li *loopInfo, at *ssa.Basic
 	for _, inv := range ls.Invariants {
 		genv := ex.frameEnv(f, st, f.entry)
 		genv.goal = true
+		genv.inLoopInv = true
 		tvv, err := genv.trans(inv.Expr)
 		t := tvv.t
 		if err != nil {
@@ -786,11 +787,13 @@ func (ex *Exec) assumeInvariants(f *frame, st *State, li *loopInfo) {
 		return
 	}
 	for _, inv := range ls.Invariants {
-		t, err := ex.V.transExpr(ex, f, inv.Expr, st, f.entry, nil)
+		aenv := ex.frameEnv(f, st, f.entry)
+		aenv.inLoopInv = true
+		tvv, err := aenv.trans(inv.Expr)
 		if err != nil {
 			continue // reported by checkInvariants
 		}
-		ex.assume(st, t)
+		ex.assume(st, tvv.t)
 	}
 }
 
